@@ -456,6 +456,79 @@ def cli_widths(res):
         shutil.rmtree(d, ignore_errors=True)
 
 
+# ---------------------------------------------------------------- deep nesting (indentation = width x depth has no ceiling)
+DEEP_OPENERS = [(b'do', b'end'), (b'if a then', b'end'), (b'while a do', b'end'), (b'for i=1,2 do', b'end'),
+                (b'function f()', b'end'), (b'repeat', b'until a'), (b'for k,v in pairs(t) do', b'end'),
+                (b'local function g(p)', b'end')]
+
+
+def deep_program(depth, rot, kind):
+    """(lines, depths): `depth` nested blocks (kinds rotated by `rot`), innermost either a statement, a nested table
+    constructor / call laid out one item per line, or an own-line comment. depths[i] = blocks and brackets open at the
+    first token of line i."""
+    lines, depths = [], []
+    closers = []
+    for i in range(depth):
+        op, cl = DEEP_OPENERS[(i + rot) % len(DEEP_OPENERS)]
+        lines.append(op)
+        depths.append(i)
+        closers.append(cl)
+    d = depth
+    if kind == 'stat':
+        lines += [b'x=1']
+        depths += [d]
+    elif kind == 'table':
+        lines += [b't={', b'{', b'1,', b'},', b'f(', b'2', b')', b'}']
+        depths += [d, d + 1, d + 2, d + 1, d + 1, d + 2, d + 1, d]
+    else:
+        lines += [b'-- c', b'x=1 // e']
+        depths += [d, d]
+    for i in range(depth - 1, -1, -1):
+        lines.append(closers[i])
+        depths.append(i)
+    return lines, depths
+
+
+def check_deep(tier, res):
+    maxd = 18 if tier == 'quick' else 40
+    for depth in list(range(1, 12)) + [12, 16, 17, maxd]:
+        for kind in ('stat', 'table', 'comment'):
+            for rot in ((0, 3) if tier == 'quick' else range(len(DEEP_OPENERS))):
+                lines, depths = deep_program(depth, rot, kind)
+                base = b''.join(ln + b'\n' for ln in lines)
+                messy = b''.join((b'\t' if i % 3 else b'   ' * (i % 5)) + ln + (b' ' if i % 4 == 0 else b'') + b'\n' for i, ln in enumerate(lines))
+                for w in range(9):
+                    res.evaluations += 1
+                    res.nontriv(('deep', depth, kind, rot, w))
+                    case = {'variant': 'deep', 'depth': depth, 'kind': kind, 'rot': rot, 'width': w, 'src': messy}
+                    try:
+                        o1 = fmt(base, w)
+                        o2 = fmt(messy, w)
+                        o3 = fmt(o1, w)
+                    except Exception as e:
+                        res.violation('C10|deep|raise|%s' % type(e).__name__, 'luafmt of %d nested blocks raised %r' % (depth, e), case)
+                        continue
+                    if o1 != o2 or o1 != o3:
+                        res.violation('C10|deep|%s' % ('indent-sensitive' if o1 != o2 else 'idempotence'),
+                                      'luafmt of %d nested blocks at width %d depends on the input indentation / is not idempotent' % (depth, w), case)
+                        continue
+                    out_lines = o1.split(b'\n')
+                    if out_lines and out_lines[-1] == b'':
+                        out_lines.pop()
+                    got = [(len(ln) - len(ln.lstrip(b' ')), ln.strip()) for ln in out_lines if ln.strip()]
+                    want = [(w * dd, ln) for ln, dd in zip(lines, depths)]
+                    if [g_[1].replace(b' ', b'') for g_ in got] != [w_[1].replace(b' ', b'') for w_ in want]:
+                        res.count('deep_line_structure_changed')       # C09 decides token preservation; the formatter keeps line breaks
+                        continue
+                    bad = next((i for i in range(len(got)) if got[i][0] != want[i][0]), None)
+                    if bad is not None:
+                        res.violation('C10|deep|indent|depth%s|width%d' % ('>' + str(32 // max(1, w)) if w and depths[bad] * w > 32 else str(depths[bad]), w),
+                                      'luafmt --indentwidth %d: line %r sits %d blocks/brackets deep and is indented by %d blanks '
+                                      '(must be %d)' % (w, got[bad][1], depths[bad], got[bad][0], want[bad][0]), case)
+                        continue
+                    res.outcome(('deep', kind, w))
+
+
 def shards(tier, seed):
     n = 48 if tier == 'quick' else 128
     items = []
@@ -466,6 +539,7 @@ def shards(tier, seed):
     items.append(('multiline',))
     items += [('runs', tier, c[0]) for c in RUN_CONTEXTS]
     items.append(('cli',))
+    items.append(('deep', tier))
     return items
 
 
@@ -474,6 +548,10 @@ def run_shard(item):
     if item[0] == 'cli':
         cli_widths(res)
         res.sample({'cli': 'p8tool luafmt --indentwidth W for W in default,0..8'})
+        return res
+    if item[0] == 'deep':
+        check_deep(item[1], res)
+        res.sample({'deep': 'up to %d nested blocks x widths 0-8' % (18 if item[1] == 'quick' else 40), 'src': b''.join(ln + b'\n' for ln in deep_program(3, 0, 'table')[0])})
         return res
     if item[0] == 'runs':
         check_runs(res, item[1], item[2])
@@ -507,6 +585,9 @@ def replay(case):
     res = ShardResult()
     if case.get('variant') == 'cli':
         cli_widths(res)
+        return [(s, v[0]) for s, v in res.violations.items()]
+    if case.get('variant') == 'deep':
+        check_deep('thorough', res)
         return [(s, v[0]) for s, v in res.violations.items()]
     if case.get('variant') == 'runs':
         check_runs(res, 'thorough')
